@@ -519,6 +519,93 @@ fn page_positions(ctx: &Ctx) {
     ctx.extra("page_position_transfers", json!(n));
 }
 
+/// Guest memory whose regions start at guest addresses that are not multiples of 8 (the host
+/// mapping is page aligned all the same): where an object lies in the guest - in particular
+/// whether it crosses a guest page boundary - has no say in how it is accessed; an object whose
+/// HOST address is aligned and that lies inside one region is moved with one access by every
+/// guest-memory level entry point.
+fn off_grid_guest_bases(ctx: &Ctx) {
+    let mut n = 0u64;
+    for base in [0x1004u64, 0x1002, 0x1001, 0x1006, 0x2ffc, 0x7_0000_0ff8 + 4] {
+        let m = match GuestMemoryMmap::<()>::from_ranges(&[(GuestAddress(base), 3 * 4096)]) {
+            Ok(m) => m,
+            Err(e) => {
+                ctx.machinery(&format!("cannot build guest memory at {:#x}: {:?}", base, e));
+                continue;
+            }
+        };
+        let host = m.iter().next().unwrap().as_ptr() as usize;
+        let range = (host, host + 3 * 4096);
+        for width in [2usize, 4, 8] {
+            // region offsets around every place where the guest address crosses a 4 KiB boundary,
+            // and around the host page boundaries
+            let mut offs: BTreeSet<usize> = BTreeSet::new();
+            for k in 0..3u64 {
+                let guest_boundary = ((base >> 12) + 1 + k) << 12;
+                let ro = (guest_boundary - base) as usize;
+                for d in -16i64..=16 {
+                    let o = ro as i64 + d;
+                    if o >= 0 && (o as usize) + width <= 3 * 4096 && (o as usize) % width == 0 {
+                        offs.insert(o as usize);
+                    }
+                }
+                for d in -16i64..=16 {
+                    let o = (k as i64 + 1) * 4096 + d;
+                    if o >= 0 && (o as usize) + width <= 3 * 4096 && (o as usize) % width == 0 {
+                        offs.insert(o as usize);
+                    }
+                }
+            }
+            for off in offs {
+                let ga = GuestAddress(base + off as u64);
+                let g = host + off;
+                for ep in ["write_obj", "read_obj", "write_slice", "read_slice", "write", "read"] {
+                    n += 1;
+                    ctx.case(true);
+                    set_cur(ep, width, (g % 8) as usize, 0);
+                    let mut local = [0u64; 2];
+                    let lb: &mut [u8] = unsafe { std::slice::from_raw_parts_mut(local.as_mut_ptr() as *mut u8, width) };
+                    for (i, b) in lb.iter_mut().enumerate() {
+                        *b = 0x90 + i as u8;
+                    }
+                    let (dir, (r, events)): (Dir, (Result<(), String>, Vec<Event>)) = match ep {
+                        "write_obj" => (Dir::ToGuest, traced(|| {
+                            match width {
+                                2 => m.write_obj(0x9190u16, ga),
+                                4 => m.write_obj(0x9392_9190u32, ga),
+                                _ => m.write_obj(0x9796_9594_9392_9190u64, ga),
+                            }
+                            .map_err(|e| format!("{:?}", e))
+                        })),
+                        "read_obj" => (Dir::FromGuest, traced(|| {
+                            match width {
+                                2 => m.read_obj::<u16>(ga).map(|_| ()),
+                                4 => m.read_obj::<u32>(ga).map(|_| ()),
+                                _ => m.read_obj::<u64>(ga).map(|_| ()),
+                            }
+                            .map_err(|e| format!("{:?}", e))
+                        })),
+                        "write_slice" => (Dir::ToGuest, traced(|| m.write_slice(lb, ga).map_err(|e| format!("{:?}", e)))),
+                        "read_slice" => (Dir::FromGuest, traced(|| m.read_slice(lb, ga).map_err(|e| format!("{:?}", e)))),
+                        "write" => (Dir::ToGuest, traced(|| m.write(lb, ga).map(|_| ()).map_err(|e| format!("{:?}", e)))),
+                        _ => (Dir::FromGuest, traced(|| m.read(lb, ga).map(|_| ()).map_err(|e| format!("{:?}", e)))),
+                    };
+                    let bad = match r {
+                        Err(e) => Some(("unexpected-error".to_string(), e)),
+                        Ok(()) => judge(&events, dir, g, 0, width, range).err(),
+                    };
+                    if let Some((k, d)) = bad {
+                        let key = format!("C06/guest-memory/{} (region at a guest address off the word grid)/{}", ep, k);
+                        let rp = if ctx.has_failed(&key) { Value::Null } else { json!({"entry_point": ep, "width": width, "region_base": format!("{:#x}", base), "guest_address": format!("{:#x}", ga.0), "region_offset": off}) };
+                        ctx.fail(&key, &format!("{} bytes at guest {:#x} (region at {:#x}, offset {:#x}, host address aligned): {}", width, ga.0, base, off, d), rp);
+                    }
+                }
+            }
+        }
+    }
+    ctx.extra("off_grid_guest_base_transfers", json!(n));
+}
+
 /// Host addresses of every power-of-two alignment the address space offers: the guest bytes (and,
 /// in turn, the local buffer) sit at an address with exactly 4..=46 trailing zero bits, obtained
 /// with mmap(MAP_FIXED_NOREPLACE) at k << tz. Address arithmetic on the alignment (lowest set
@@ -980,7 +1067,7 @@ fn schedules(ctx: &Ctx) {
 
 pub fn run(tier: Tier, replay: Option<String>) -> i32 {
     let ctx = crate::new_ctx("C06", tier, "model_checking", &replay);
-    ctx.set_rule("(a) trace enumeration: for every transfer length 0..=8 x guest address mod 8 x local address mod 8 (576 classes) x 18 entry points that funnel into the byte-copy helper (write/read/write_slice/read_slice, copy_to/copy_from::<u8> and VolatileArrayRef<u8> copies with a local buffer of the same length and a longer one, &[u8]/&mut [u8]/Vec<u8>/Cursor adapters, plain and exact stream forms; buffer-level entry points also with the local buffer directly before / after the guest bytes in one allocation; Vec<u8> sinks additionally in every fill state: capacity 0..=24 x bytes already held x length 1..=8 x guest address mod 8) and for whole objects of 1..16 bytes at every guest address of two adjacent regions (incl. objects straddling the boundary) through the guest-memory layer: hook H1 records kind, address and width of every primitive volatile access; required: the guest bytes accessed are exactly the range, each once, every access naturally aligned, exactly ONE access of the full width when the length is 1/2/4/8 and both addresses are aligned to it, the data arrives, and a transfer that moved bytes without a recorded volatile access is a violation; the same rule for 10 entry points x lengths {1,2,4,8,3,16} with the guest bytes, and in turn the local buffer, at a host address with exactly 4..=46 trailing zero bits (mmap MAP_FIXED_NOREPLACE at k << tz), and at every naturally aligned position of a 4 KiB page and across the boundary to the next one; atomic store/load for all 10 integer types at every offset: Ok iff aligned, value round-trips. (b) E3: all interleavings, with a scheduling point before every primitive access, of a writer flipping 0 <-> all-ones twice and a reader reading twice (u16, u32, u64, and a 16-byte object whose first chunk is the last aligned u64 of a region): the reader may only see the old or the new value. States = choice-tree nodes, traces = schedules executed on the real code.");
+    ctx.set_rule("(a) trace enumeration: for every transfer length 0..=8 x guest address mod 8 x local address mod 8 (576 classes) x 18 entry points that funnel into the byte-copy helper (write/read/write_slice/read_slice, copy_to/copy_from::<u8> and VolatileArrayRef<u8> copies with a local buffer of the same length and a longer one, &[u8]/&mut [u8]/Vec<u8>/Cursor adapters, plain and exact stream forms; buffer-level entry points also with the local buffer directly before / after the guest bytes in one allocation; Vec<u8> sinks additionally in every fill state: capacity 0..=24 x bytes already held x length 1..=8 x guest address mod 8) and for whole objects of 1..16 bytes at every guest address of two adjacent regions (incl. objects straddling the boundary) through the guest-memory layer: hook H1 records kind, address and width of every primitive volatile access; required: the guest bytes accessed are exactly the range, each once, every access naturally aligned, exactly ONE access of the full width when the length is 1/2/4/8 and both addresses are aligned to it, the data arrives, and a transfer that moved bytes without a recorded volatile access is a violation; the same rule for 10 entry points x lengths {1,2,4,8,3,16} with the guest bytes, and in turn the local buffer, at a host address with exactly 4..=46 trailing zero bits (mmap MAP_FIXED_NOREPLACE at k << tz), and at every naturally aligned position of a 4 KiB page and across the boundary to the next one; guest memory whose region starts at a guest address off the word grid (six bases): host-aligned objects around every guest and host page boundary through six guest-memory level entry points; atomic store/load for all 10 integer types at every offset: Ok iff aligned, value round-trips. (b) E3: all interleavings, with a scheduling point before every primitive access, of a writer flipping 0 <-> all-ones twice and a reader reading twice (u16, u32, u64, and a 16-byte object whose first chunk is the last aligned u64 of a region): the reader may only see the old or the new value. States = choice-tree nodes, traces = schedules executed on the real code.");
     ctx.assume("one naturally aligned volatile access of <= 8 bytes is a single machine access (LLVM volatile semantics, x86-64/aarch64 single-copy atomicity); SC interleavings of whole primitive accesses");
     if ctx.replay_of.is_some() {
         println!("replay: deterministic enumeration; re-running it");
@@ -996,6 +1083,7 @@ pub fn run(tier: Tier, replay: Option<String>) -> i32 {
     crate::crash::guarded(&ctx, &describe, || object_classes(&ctx));
     crate::crash::guarded(&ctx, &describe, || high_alignment_classes(&ctx));
     crate::crash::guarded(&ctx, &describe, || page_positions(&ctx));
+    crate::crash::guarded(&ctx, &describe, || off_grid_guest_bases(&ctx));
     orderings(&ctx);
     atomic_alignment(&ctx);
     schedules(&ctx);
